@@ -145,6 +145,47 @@ theorem write_path_atomic (p : PutIn)
   · right
     simp [FS.data, h1, (hv w hw).2 h2]
 
+theorem putCore_crash_atomic (hash : Bytes → Name) (fs : FS) (p : PutIn)
+    (hv : ∀ w ∈ p.attempts, w.h = p.h ∧ (w.rend = .eof → w.chunks.flatten = p.body)) (k : Nat) :
+    (run fs ((putCore hash fs p).1.take k)).data (blockPath p.h) = fs.data (blockPath p.h) ∨
+    (run fs ((putCore hash fs p).1.take k)).data (blockPath p.h) = some p.body := by
+  unfold putCore
+  simp only
+  split
+  · simpa using write_path_atomic p hv fs k
+  · split
+    · split
+      · left; exact touch_data fs p.h p.now p.touchFail _ k
+      · -- Touch failed, then the write path
+        rw [List.take_append, run_append]
+        have ht := touch_data fs p.h p.now p.touchFail (blockPath p.h) k
+        rcases write_path_atomic p hv (run fs ((touchEvs fs p.h p.now p.touchFail).1.take k))
+          (k - (touchEvs fs p.h p.now p.touchFail).1.length) with h1 | h1
+        · left; rw [h1, ht]
+        · right; exact h1
+    · split
+      · left; simp
+      · simpa using write_path_atomic p hv fs k
+
+theorem compare_nops' (fs : FS) (h : Name) : ∀ e ∈ compareEvs fs h, e.eff = .nop := by
+  intro e he
+  unfold compareEvs at he
+  split at he <;> simp at he
+  · subst he; rfl
+  · rcases he with rfl | rfl | rfl <;> rfl
+
+theorem run_nops {fs : FS} {evs : List Ev} (h : ∀ e ∈ evs, e.eff = .nop) : run fs evs = fs := by
+  induction evs generalizing fs with
+  | nil => rfl
+  | cons e es ih =>
+    rw [run_cons, h e List.mem_cons_self]
+    exact ih (fun e' he' => h e' (List.mem_cons_of_mem _ he'))
+
+/-- a prefix of no-effect events only shifts the crash position -/
+theorem run_take_nops_append {N X : List Ev} (hN : ∀ e ∈ N, e.eff = .nop) (fs : FS) (k : Nat) :
+    run fs ((N ++ X).take k) = run fs (X.take (k - N.length)) := by
+  rw [List.take_append, run_append, run_nops (fun e he => hN e (List.mem_of_mem_take he))]
+
 theorem put_crash_atomic (hash : Bytes → Name) (fs : FS) (p : PutIn)
     (hv : ∀ w ∈ p.attempts, w.h = p.h ∧ (w.rend = .eof → w.chunks.flatten = p.body)) (k : Nat) :
     (run fs ((handlePut hash fs p).1.take k)).data (blockPath p.h) = fs.data (blockPath p.h) ∨
@@ -154,29 +195,20 @@ theorem put_crash_atomic (hash : Bytes → Name) (fs : FS) (p : PutIn)
   · left; simp
   · split
     · left; simp
-    · simp only
-      split
-      · simpa using write_path_atomic p hv fs k
-      · split
-        · split
-          · left; exact touch_data fs p.h p.now p.touchFail _ k
-          · -- Touch failed, then the write path
-            rw [List.take_append, run_append]
-            have ht := touch_data fs p.h p.now p.touchFail (blockPath p.h) k
-            rcases write_path_atomic p hv (run fs ((touchEvs fs p.h p.now p.touchFail).1.take k))
-              (k - (touchEvs fs p.h p.now p.touchFail).1.length) with h1 | h1
-            · left; rw [h1, ht]
-            · right; exact h1
-        · split
-          · left; simp
-          · simpa using write_path_atomic p hv fs k
+    · split
+      · left
+        simp only
+        rw [run_nops (fun e he => compare_nops' fs p.h e (List.mem_of_mem_take he))]
+      · simp only
+        rw [run_take_nops_append (compare_nops' fs p.h)]
+        exact putCore_crash_atomic hash fs p hv _
 
 /-- 200 is only answered after `PutBlock` returned nil: then every event has been performed and the
 block path holds the complete body. -/
-theorem ack_complete (hash : Bytes → Name) (fs : FS) (p : PutIn)
+theorem putCore_ack (hash : Bytes → Name) (fs : FS) (p : PutIn)
     (hv : ∀ w ∈ p.attempts, w.h = p.h ∧ (w.rend = .eof → w.chunks.flatten = p.body))
-    (h : (handlePut hash fs p).2 = .ok200) :
-    hash p.body = p.h ∧ (run fs (handlePut hash fs p).1).data (blockPath p.h) = some p.body := by
+    (h : (putCore hash fs p).2 = .ok200) :
+    (run fs (putCore hash fs p).1).data (blockPath p.h) = some p.body := by
   have wr : ∀ (pre : List Ev), (if p.cancelled = true then Resp.disconnect
         else if (attemptsEvs p.attempts).2 = true then Resp.ok200 else Resp.fail) = Resp.ok200 →
       (run fs (pre ++ (attemptsEvs p.attempts).1)).data (blockPath p.h) = some p.body := by
@@ -190,6 +222,31 @@ theorem ack_complete (hash : Bytes → Name) (fs : FS) (p : PutIn)
     obtain ⟨w, hw, h1, h2⟩ := attempts_success p.h p.attempts (fun w hw => (hv w hw).1) (run fs pre) hs
     rw [run_append]
     simp [FS.data, h1, (hv w hw).2 h2]
+  generalize hr : putCore hash fs p = r at h ⊢
+  unfold putCore at hr
+  simp only at hr
+  split at hr
+  · subst hr; simpa using wr [] h
+  · rename_i f hf
+    split at hr
+    · rename_i hd
+      split at hr
+      · -- Touch succeeded: the stored data is the body
+        subst hr
+        have := touch_data fs p.h p.now p.touchFail (blockPath p.h) (touchEvs fs p.h p.now p.touchFail).1.length
+        rw [List.take_length] at this
+        simp only
+        rw [this]
+        simp [FS.data, hf, hd]
+      · subst hr; exact wr _ h
+    · split at hr
+      · subst hr; simp at h
+      · subst hr; simpa using wr [] h
+
+theorem ack_complete (hash : Bytes → Name) (fs : FS) (p : PutIn)
+    (hv : ∀ w ∈ p.attempts, w.h = p.h ∧ (w.rend = .eof → w.chunks.flatten = p.body))
+    (h : (handlePut hash fs p).2 = .ok200) :
+    hash p.body = p.h ∧ (run fs (handlePut hash fs p).1).data (blockPath p.h) = some p.body := by
   generalize hr : handlePut hash fs p = r at h ⊢
   unfold handlePut at hr
   split at hr
@@ -199,23 +256,11 @@ theorem ack_complete (hash : Bytes → Name) (fs : FS) (p : PutIn)
     · rename_i hh
       have hh' : hash p.body = p.h := by simpa using hh
       refine ⟨hh', ?_⟩
-      simp only at hr
       split at hr
-      · subst hr; simpa using wr [] h
-      · rename_i f hf
-        split at hr
-        · rename_i hd
-          split at hr
-          · -- Touch succeeded: the stored data is the body
-            subst hr
-            have := touch_data fs p.h p.now p.touchFail (blockPath p.h) (touchEvs fs p.h p.now p.touchFail).1.length
-            rw [List.take_length] at this
-            simp only
-            rw [this]
-            simp [FS.data, hf, hd]
-          · subst hr; exact wr _ h
-        · split at hr
-          · subst hr; simp at h
-          · subst hr; simpa using wr [] h
+      · subst hr; simp at h
+      · subst hr
+        simp only at h ⊢
+        rw [run_append, run_nops (compare_nops' fs p.h)]
+        exact putCore_ack hash fs p hv h
 
 end ArvVerif.C02
